@@ -144,8 +144,8 @@ PARTS = {
 
 
 def vacuity(merged, tier):
-    for cls, lim in (("flags_True_False", 0.15), ("flags_False_True", 0.05), ("hft_groups", 0.2), ("halt_rule", 0.2), ("round_checks", 0.2),
-                     ("hft_cap_binds", 0.05), ("normal_cap_binds", 0.2)):
+    for cls, lim in (("flags_True_False", 0.06), ("flags_False_True", 0.02), ("hft_groups", 0.08), ("halt_rule", 0.08), ("round_checks", 0.08),
+                     ("hft_cap_binds", 0.02), ("normal_cap_binds", 0.08)):
         if frac(merged, "sim", cls) < lim:
             return f"class {cls} below {lim:.0%} of runs"
     if merged["rate"]["skipped"] > merged["rate"]["evaluations"] // 2:
